@@ -16,7 +16,7 @@ pub fn def() -> PropDef {
         nontrivial,
         functional: true,
         post: super::no_post,
-        rule: "int, uint and double literals from boundary sets (0, +-1, +-2^31, +-2^53+-1, i64/u64 limits and their out-of-range neighbours; NaN-free double patterns incl. subnormals, -0.0, extremes) written in decimal, hexadecimal, signed and exponent forms; int(), uint(), double(), string(), bytes() applied to boundary arguments of every kind (as literals and as context variables, so NaN and infinities are reachable) and the round trips int(string(i)), uint(string(u)), double(string(d)), string(bytes(s)); plus random 64-bit patterns in every literal form; expected values come from i128 / IEEE arithmetic in the harness; non-trivial = the case is not a plain small literal; distinct = distinct (context, source)",
+        rule: "int, uint and double literals from boundary sets (0, +-1, +-2^31, +-2^53+-1, i64/u64 limits and their out-of-range neighbours; NaN-free double patterns incl. subnormals, -0.0, extremes) written in decimal, hexadecimal, signed and exponent forms; int(), uint(), double(), string(), bytes() applied to boundary arguments of every kind (as literals and as context variables, so NaN and infinities are reachable) and the round trips int(string(i)), uint(string(u)), double(string(d)), string(bytes(s)); plus random 64-bit patterns in every literal form, and doubles that sit exactly between two shortest decimal candidates (printing ties); expected values come from i128 / IEEE arithmetic in the harness; non-trivial = the case is not a plain small literal; distinct = distinct (context, source)",
         exhaustive_note: "boundary sets x forms are enumerated completely; random patterns are a sample",
     }
 }
@@ -143,6 +143,20 @@ pub fn generate(tier: Tier, rng: &mut Rng) -> Vec<Case> {
     let n = if tier == Tier::Quick { 300 } else { 50_000 };
     for _ in 0..n {
         doubles.push(gen_f64(rng, false));
+    }
+    // doubles whose exact decimal expansion ends in …5 one place past the shortest representation
+    // (k + 1/4 with 2^50 <= k < 2^51, k + 1/8 …, and their small-exponent cousins): two shortest
+    // digit strings are equally close, and the printer has to break the tie the way Rust does
+    let n_ties = if tier == Tier::Quick { 400 } else { 20_000 };
+    for i in 0..n_ties {
+        let frac_bits = 1 + (i % 4) as u32; // value = k + odd / 2^(frac_bits+1)
+        let top = 52 - frac_bits - 1;
+        let k = (1u64 << top) + rng.next() % (1u64 << top);
+        let odd = 2 * (rng.next() % (1u64 << frac_bits)) + 1;
+        let v = k as f64 + odd as f64 / (1u64 << (frac_bits + 1)) as f64;
+        doubles.push(if i % 2 == 0 { v } else { -v });
+        // the same significand at a small exponent (many leading zeros after the point)
+        doubles.push(v * 2f64.powi(-((i % 40) as i32) - 60));
     }
     for &f in &doubles {
         let mut vspec = CtxSpec::default_ctx();
